@@ -295,6 +295,153 @@ theorem C46_witness_v1_sig_suffix :    -- "PROXYX TCP4 ..."
     (connRun envAny4 (sigV1 ++ 0x58 :: SP :: (tokTCP4 ++ SP :: (tokIP ++ SP :: (tokIP ++ SP :: ([0x31] ++ SP :: [0x32, CR, LF]))))) 0 .eof).closed
       = false := by decide
 
+/-- address text without a colon is IPv4 text: `net.ParseIP` maps it to a v4(-mapped) address -/
+def EnvOK (env : Env) : Prop :=
+  ∀ t ip, env.parseIP t = some ip → hasByte t 0x3A = false → isV4Mapped ip = true
+
+def lenientV1 : List String := ["v1-overlong", "v1-sig-suffix", "v1-extra-token", "v1-port-syntax", "v1-addr-syntax"]
+
+/-- **C46_v1_malformed_rejected_partial**: every stream that begins with `PROXY` and that the specification side
+    (`specV1`: first line within 107 bytes, CRLF, exactly the six tokens, TCP4/TCP6, strict decimal ports, address text
+    of the right family) classifies as malformed is REJECTED by the code (connection closed, hence no byte delivered,
+    `C46_malformed_closes_no_data`) — except for the five lenient classes recorded as known findings (`lenientV1`).
+    `EnvOK`: `net.ParseIP` maps colon-free text to an IPv4 address. -/
+theorem C46_v1_malformed_rejected_partial (env : Env) (stream : Bytes) (limit : Nat) (e : EndK)
+    (hok : EnvOK env) (hsig : stream.take 5 = sigV1) (hlim : 107 ≤ effLimit limit)
+    (hrej : (specV1 env stream).1 = .reject) (hcls : (specV1 env stream).2 ∉ lenientV1) :
+    (connRun env stream limit e).closed = true := by
+  unfold connRun
+  rw [connOf_closed]
+  have hvis5 : (stream.take (effLimit limit)).take 5 = sigV1 := by
+    rw [List.take_take, show min 5 (effLimit limit) = 5 from by omega]; exact hsig
+  have hne : ∃ b t, stream.take (effLimit limit) = b :: t := by
+    cases h : stream.take (effLimit limit) with
+    | nil => rw [h] at hvis5; simp [sigV1] at hvis5
+    | cons b t => exact ⟨b, t, rfl⟩
+  obtain ⟨b, t, hbt⟩ := hne
+  have hrh : readHeader env (stream.take (effLimit limit)) (atEOFOf stream limit e) = parseV1 env (stream.take (effLimit limit)) := by
+    rw [hbt] at hvis5 ⊢; exact rh_v1 env b t _ hvis5
+  rw [hrh]
+  generalize hS : specV1 env stream = sv at hrej hcls
+  unfold specV1 at hS
+  cases hl107 : readLine (stream.take 107) with
+  | none =>
+    rw [hl107] at hS
+    simp only [] at hS
+    subst hS
+    by_cases hls : (readLine stream).isSome = true
+    · simp [hls, lenientV1] at hcls
+    · have hn : readLine stream = none := by
+        cases h : readLine stream with
+        | none => rfl
+        | some l => simp [h] at hls
+      unfold parseV1
+      rw [readLine_take_none _ _ hn]; rfl
+  | some line =>
+    rw [hl107] at hS
+    simp only [] at hS
+    have hfull := readLine_of_take _ _ _ hl107
+    have hll : line.length ≤ 107 := by
+      have := readLine_prefix _ _ hl107
+      have h2 := congrArg List.length this
+      simp at h2; omega
+    have hvisl : readLine (stream.take (effLimit limit)) = some line :=
+      readLine_take_some _ _ _ hfull (by omega)
+    unfold parseV1
+    rw [hvisl]
+    simp only []
+    by_cases hcr : line.length < 2 ∨ line.getD (line.length - 2) 0 ≠ CR
+    · have : line.length < 2 ∨ line.getD (line.length - 2) 0 ≠ 0x0D := hcr
+      rw [if_pos this]; rfl
+    · have hcr' : ¬ (line.length < 2 ∨ line.getD (line.length - 2) 0 ≠ 0x0D) := hcr
+      rw [if_neg hcr'] 
+      rw [if_neg hcr] at hS
+      generalize splitSp (List.take (line.length - 2) line) = toks at hS ⊢
+      generalize line.length = n at hS ⊢
+      have r0 : ∀ ip p, resolve 0x00 ip p = none := fun ip p => resolve_other _ ip p (by decide) (by decide)
+      by_cases h0 : toks.getD 0 [] ≠ sigV1
+      · rw [if_pos h0] at hS; subst hS; simp [lenientV1] at hcls
+      rw [if_neg h0] at hS
+      by_cases hu : toks.length ≥ 2 ∧ toks.getD 1 [] = tokUNKNOWN
+      · rw [if_pos hu] at hS; subst hS; simp at hrej
+      rw [if_neg hu] at hS
+      by_cases h6 : toks.length > 6
+      · rw [if_pos h6] at hS; subst hS; simp [lenientV1] at hcls
+      rw [if_neg h6] at hS
+      by_cases h5 : toks.length < 6
+      · unfold parseToks; rw [if_neg hu, if_pos h5]; rfl
+      rw [if_neg h5] at hS
+      unfold parseToks
+      rw [if_neg hu, if_neg h5]
+      dsimp only at hS ⊢
+      by_cases hp : toks.getD 1 [] ≠ tokTCP4 ∧ toks.getD 1 [] ≠ tokTCP6
+      · have hfam : (if toks.getD 1 [] = tokTCP4 then (0x11 : UInt8) else if toks.getD 1 [] = tokTCP6 then 0x21 else 0x00) = 0x00 := by
+          rw [if_neg hp.1, if_neg hp.2]
+        rw [hfam]
+        repeat' split
+        all_goals simp [closedRd, r0]
+      rw [if_neg hp] at hS
+      cases hsp : specPort (toks.getD 4 []) with
+      | none => rw [hsp] at hS; simp only [] at hS; subst hS; simp [lenientV1] at hcls
+      | some sp =>
+        cases hdp : specPort (toks.getD 5 []) with
+        | none => rw [hsp, hdp] at hS; simp only [] at hS; subst hS; simp [lenientV1] at hcls
+        | some dp =>
+          rw [hsp, hdp] at hS
+          simp only [] at hS
+          rw [goPort_of_specPort _ _ hsp, goPort_of_specPort _ _ hdp]
+          simp only []
+          generalize toks.getD 2 [] = a at hS ⊢
+          generalize toks.getD 3 [] = bb at hS ⊢
+          by_cases h4 : toks.getD 1 [] = tokTCP4
+          · rw [if_pos h4]
+            cases hia : env.parseIP a with
+            | none => simp [parseV1IP, hia, closedRd]
+            | some ia =>
+              cases hib : env.parseIP bb with
+              | none => cases hm : isV4Mapped ia <;> simp [parseV1IP, hia, hib, hm, closedRd]
+              | some ib =>
+                rw [hia, hib] at hS
+                simp only [h4, if_true] at hS
+                split at hS
+                · subst hS; simp [lenientV1] at hcls
+                · subst hS; simp at hrej
+          · have h6' : toks.getD 1 [] = tokTCP6 := by
+              by_cases hh : toks.getD 1 [] = tokTCP6
+              · exact hh
+              · exact absurd ⟨h4, hh⟩ hp
+            rw [if_neg h4, if_pos h6']
+            have r6n : ∀ p, resolve 0x21 none p = none := fun p => rfl
+            cases hia : env.parseIP a with
+            | none =>
+              cases hib : env.parseIP bb with
+              | none => simp [parseV1IP, hia, hib, closedRd, r6n]
+              | some ib => cases hm : isV4Mapped ib <;> simp [parseV1IP, hia, hib, hm, closedRd, r6n]
+            | some ia =>
+              cases hib : env.parseIP bb with
+              | none =>
+                cases hm : isV4Mapped ia <;> simp [parseV1IP, hia, hib, hm, closedRd, r6n]
+              | some ib =>
+                rw [hia, hib] at hS
+                simp only [h4, if_false] at hS
+                split at hS
+                · rename_i hfam
+                  -- a token without a colon is IPv4 text, which the code refuses under TCP6
+                  have hcase : hasByte a 0x3A = false ∨ hasByte bb 0x3A = false := by
+                    simp only [Bool.or_eq_true, Bool.not_eq_true'] at hfam; exact hfam
+                  rcases hcase with hc | hc
+                  · have hm := hok a ia hia hc
+                    simp [parseV1IP, hia, hm, closedRd]
+                  · have hm := hok bb ib hib hc
+                    cases hma : isV4Mapped ia <;> simp [parseV1IP, hia, hib, hm, hma, closedRd]
+                · subst hS; simp at hrej
+
+-- non-vacuity: a line with too few tokens, and one whose TCP6 address is IPv4 text
+example : (specV1 envAny4 (sigV1 ++ SP :: (tokTCP4 ++ SP :: (tokIP ++ [CR, LF])))).1 = .reject ∧
+    (specV1 envAny4 (sigV1 ++ SP :: (tokTCP4 ++ SP :: (tokIP ++ [CR, LF])))).2 ∉ lenientV1 := by decide
+example : (specV1 envAny4 (encodeV1 tokTCP6 tokIP tokIP [0x31] [0x32])).1 = .reject ∧
+    (specV1 envAny4 (encodeV1 tokTCP6 tokIP tokIP [0x31] [0x32])).2 ∉ lenientV1 := by decide
+
 /-! ### no signature -/
 
 def passObs (stream : Bytes) (e : EndK) : Obs :=
@@ -470,6 +617,33 @@ theorem C46_chunking_independent (env : Env) (v1 : Rdr → Rd × Rdr) (segs : Li
   | sock n => simp [connOf, h3 n rfl]
   | hdr f s d sp dp n => simp only [connOf]; rw [h3 n rfl]; rfl
 
+/-- **C46_chunking_independent (complete)**: with `ReadString` modelled over the segmented reader too (`parseV1Seg`:
+    the `ReadSlice` loop that sets full 4096-byte buffers aside), the whole `bfe_proxy.Conn` over ANY segmentation of
+    the connection equals the chunk-free model on the concatenated stream — for EVERY stream, limit and end:
+    same addresses, same accept/reject decision, and the same bytes handed to the application. -/
+theorem C46_chunking_independent_full (env : Env) (segs : List Bytes) (limit : Nat) (e : EndK) :
+    connSeg (parseV1Seg env) segs limit e = connRun env segs.flatten limit e := by
+  by_cases hv : ((segs.flatten).take (effLimit limit)).take 5 = sigV1
+  · have hK0 : ({ buf := [], segs := segs, N := effLimit limit } : Rdr).K segs.flatten.length (effLimit limit) := by
+      simp [Rdr.K]
+    have hrest : ({ buf := [], segs := segs, N := effLimit limit } : Rdr).rest = (segs.flatten).take (effLimit limit) := by
+      simp [Rdr.rest]
+    have hall : ({ buf := [], segs := segs, N := effLimit limit } : Rdr).all = segs.flatten := by simp [Rdr.all]
+    obtain ⟨h1, h3, hnp⟩ := readHeaderSeg_spec_v1 env _ e _ _ hK0 (atEOFOf segs.flatten limit e) (by rw [hrest]; exact hv)
+    rw [hrest] at h1
+    rw [hall] at h3
+    unfold connSeg connRun
+    rw [← h1]
+    simp only []
+    generalize readHeaderSeg (parseV1Seg env) { buf := [], segs := segs, N := effLimit limit } e = p at h3 hnp ⊢
+    obtain ⟨rd, r⟩ := p
+    cases rd with
+    | noProxy => exact absurd rfl hnp
+    | err => rfl
+    | sock n => simp [connOf, h3 n rfl]
+    | hdr f s d sp dp n => simp only [connOf]; rw [h3 n rfl]; rfl
+  · exact C46_chunking_independent env (parseV1Seg env) segs limit e hv
+
 /-- **C46_chunking_independent (v2 parser)**: let the connection deliver the stream in ANY segments `segs` (each
     `conn.Read` returns bytes of at most one segment), read through bfe_bufio's 4096-byte reader and the header
     limiter.  Once `Peek(12)` has matched the v2 signature, `parseVersion2` over that reader (`parseV2Seg`: ReadByte ×4,
@@ -503,6 +677,10 @@ example :
     r.buf.take 12 = sigV2 ∧
     (parseV2Seg r .eof).1 = .hdr 0x11 (some (to16 [1, 2, 3, 4])) (some (to16 [5, 6, 7, 8])) 80 443 31 ∧
     (parseV2Seg r .eof).2.all = [0x68, 0x69] := by decide
+-- a v1 line delivered in uneven segments with an empty read in the middle
+example :
+    (connSeg (parseV1Seg envAny4) [sigV1 ++ [SP], tokTCP4 ++ [SP] ++ tokIP, [], [SP] ++ tokIP ++ [SP, 0x38, 0x30, SP, 0x34], [0x34, 0x33, CR], [LF, 0x68, 0x69]] 0 .eof).data
+      = [0x68, 0x69] := by decide
 example : ({ buf := [], segs := [[1], [], [2, 3]], N := 2 } : Rdr).K 3 2 := by simp [Rdr.K]
 example : (({ buf := [], segs := [[1], [], [2, 3]], N := 2 } : Rdr).need 2).buf = [1, 2] := by decide
 
